@@ -18,7 +18,7 @@ Import ListNotations.
 Require Import Verif.Lib.Wire Verif.Lib.Text Verif.Lib.PathNorm Verif.Lib.Utf8 Verif.Lib.Percent.
 Require Verif.Gen.Facts_C01 Verif.Model.C01 Verif.Proofs.C01.
 Require Import Verif.Gen.Facts_C17 Verif.Model.C17 Verif.Proofs.C17.
-Require Import Verif.Gen.Facts_C06 Verif.Model.C06 Verif.Proofs.C06.
+Require Import Verif.Gen.Facts_C06 Verif.Model.C06 Verif.Proofs.C06 Verif.Proofs.C06_total.
 Open Scope N_scope.
 
 (* the regenerated literals are the ones the composition was written for: '%(name)s' slots for both
@@ -172,3 +172,12 @@ Theorem C06_route_path_way_back : forall O p e rs n o kw P caps,
     /\ match_back O p pi = Some (C01.mk_dict (C01.items p) (C01.star p) caps).
 Proof. exact route_path_way_back. Qed.
 Print Assumptions C06_route_path_way_back.
+
+(* generation succeeds whenever the property speaks about the case: the pattern's literals are
+   Unicode scalar values, every supplied value stands for a text, every placeholder has a value *)
+Theorem C06_generate_succeeds : forall p kw caps,
+  forallb (forallb valid_scalar) (lits (C01.items p)) = true ->
+  wf_kw (C01.star p) kw = true -> kw_caps p kw = Some caps ->
+  exists u, generate (to_pattern p) kw = Ok u.
+Proof. exact Verif.Proofs.C06_total.generate_succeeds. Qed.
+Print Assumptions C06_generate_succeeds.
